@@ -25,7 +25,58 @@ EXPLANATION = (
 )
 
 
+def rule_prob_threshold(ctx: Ctx) -> None:
+    """num.prob-threshold: DensityMatrix.apply_measurement decides whether a forced outcome is possible from probabilities computed as
+    traces of floating-point matrix products; such a probability is compared with 0 through a tolerance (np.isclose), never with
+    `> 0` / `< 1` / `== 0`: after a few gates an impossible outcome has probability ~1e-17 rather than 0, would be "forced", and the state is
+    divided by that number."""
+    repo = ctx.repo
+    rel = "graphiq/backends/density_matrix/state.py"
+    m = repo.module(rel)
+    fn = repo.anchor(rel, "DensityMatrix.apply_measurement")
+    ctx.touch(m, fn)
+    pn = {a.targets[0].id for a in ast.walk(fn) if isinstance(a, ast.Assign) and len(a.targets) == 1 and isinstance(a.targets[0], ast.Name)
+          and any(isinstance(c, ast.Call) and call_attr(c) == "trace" for c in ast.walk(a.value))}
+    if not pn:
+        raise AnalysisError("DensityMatrix.apply_measurement: outcome probabilities (np.trace(...)) not found")
+    changed = True
+    while changed:  # lists the probabilities are appended to, arrays built from them
+        changed = False
+        for x in ast.walk(fn):
+            if isinstance(x, ast.Call) and call_attr(x) == "append" and isinstance(x.func.value, ast.Name) and x.args \
+                    and any(isinstance(y, ast.Name) and y.id in pn for y in ast.walk(x.args[0])) and x.func.value.id not in pn:
+                pn.add(x.func.value.id)
+                changed = True
+            if isinstance(x, ast.Assign) and len(x.targets) == 1 and isinstance(x.targets[0], ast.Name) and x.targets[0].id not in pn \
+                    and any(isinstance(y, ast.Name) and y.id in pn for y in ast.walk(x.value)):
+                pn.add(x.targets[0].id)
+                changed = True
+    n = 0
+    for cmp_ in [x for x in ast.walk(fn) if isinstance(x, ast.Compare)]:
+        sides = [cmp_.left] + list(cmp_.comparators)
+        if not any(isinstance(s_, ast.Subscript) and isinstance(s_.value, ast.Name) and s_.value.id in pn for s_ in sides):
+            continue
+        n += 1
+        lits = [s_ for s_ in sides if isinstance(s_, ast.Constant) and isinstance(s_.value, (int, float))]
+        if lits:
+            ctx.fail("num.prob-threshold", m, cmp_,
+                     f"DensityMatrix.apply_measurement tests `{short(cmp_)}`: the probability is a trace of floating-point products, so an impossible "
+                     f"outcome has probability ~1e-17, not 0 — it passes this test, is forced, and the state is divided by ~1e-17 "
+                     f"(X, H, H then a measurement forced to 0 returns |0> for the state |1>)", func="DensityMatrix.apply_measurement",
+                     construct=f"apply_measurement: exact threshold {short(cmp_, 40)} on a computed probability")
+        else:
+            ctx.ok("num.prob-threshold", m, cmp_)
+    tol = [c for c in calls_in(fn) if call_attr(c) in ("isclose", "allclose") and any(isinstance(x, ast.Subscript) and isinstance(x.value, ast.Name) and x.value.id in pn
+                                                                                         for a_ in c.args for x in ast.walk(a_))]
+    for c in tol:
+        n += 1
+        ctx.ok("num.prob-threshold", m, c, what="forced outcome tested against zero probability with a tolerance")
+    if n == 0:
+        raise AnalysisError("DensityMatrix.apply_measurement: no test of the outcome probabilities found")
+
+
 def run(ctx: Ctx) -> None:
+    rule_prob_threshold(ctx)
     from ..rules import memo as _memo
     _memo.rule_memo_sound(ctx, ['graphiq/backends/density_matrix/compiler.py', 'graphiq/backends/stabilizer/compiler.py', 'graphiq/backends/compiler_base.py', 'graphiq/backends/density_matrix/state.py', 'graphiq/backends/stabilizer/state.py', 'graphiq/backends/density_matrix/functions.py'])
     repo = ctx.repo
@@ -547,6 +598,7 @@ def _swap_first(a: str, b: str):
 
 
 KNOCKOUTS = [
+    Knockout("forced-outcome-exact-threshold", "graphiq/backends/density_matrix/state.py", sub_once("                if not np.isclose(probs[1], 0.0):", "                if probs[1] > 0:"), "num.prob-threshold", "exact threshold", on_fixed_only=True),
     Knockout("A1-reintroduce-shadow", DM, _swap_first("elif isinstance(op, ops.MeasurementCNOTandReset):", "elif isinstance(op, ops.ClassicalControlledPairOperationBase):"),
              "dispatch.shadow", "MeasurementCNOTandReset"),
     Knockout("kron-one-qubit-offbyone", "graphiq/backends/density_matrix/functions.py",
